@@ -362,7 +362,7 @@ def replay_finding(ctx, finding):
     try:
         parent = etree.Element("p")
         root.render(parent, root(**kw))
-        back = root.parse(parent[0], zs)
+        back = root.parse(enginea.copy_node(parent[0]), zs)      # over the wire: serialised and parsed again
         k = list(kw)[0]
         return back[k] is None
     except Exception:  # noqa
